@@ -539,6 +539,45 @@ pub fn shuffle_names(m: &mut Model, rng: &mut Rng) {
     if rng.chance(0.15) && concat_twin_names(m, rng) {
         return;
     }
+    if rng.chance(0.06) {
+        // names that COLLIDE under a common 32-bit string hash (FNV, djb2, CRC-32, murmur3, FxHasher,
+        // std's DefaultHasher truncated ...; precomputed pairs, see hashtwins.rs): pairs among the
+        // nonterminals and pairs among the terminals; or names whose hash equals a reserved word's
+        let (_, pairs) = *rng.pick(crate::hashtwins::TWINS);
+        let mut flat: Vec<&str> = vec![];
+        let mut order: Vec<usize> = (0..pairs.len()).collect();
+        rng.shuffle(&mut order);
+        for i in order {
+            flat.push(pairs[i].0);
+            flat.push(pairs[i].1);
+        }
+        if rng.chance(0.3) {
+            let pre: Vec<&str> = crate::hashtwins::KEYWORD_PREIMAGES.iter().flat_map(|(_, _, v)| v.iter().copied()).filter(|n| n.starts_with(|c: char| c.is_ascii_uppercase())).collect();
+            for _ in 0..3 {
+                flat.insert(rng.below(flat.len() + 1), *rng.pick(&pre));
+            }
+        }
+        let half = flat.len() / 2;
+        let (a, b) = flat.split_at(half - half % 2);
+        if m.nts.len() <= a.len() && m.terms.len() <= b.len() {
+            let mut all: Vec<&str> = a[..m.nts.len()].to_vec();
+            all.extend_from_slice(&b[..m.terms.len()]);
+            all.push(&m.term_enum);
+            let n = all.len();
+            all.sort();
+            all.dedup();
+            if all.len() == n {
+                let (na, nb): (Vec<String>, Vec<String>) = (a.iter().map(|x| x.to_string()).collect(), b.iter().map(|x| x.to_string()).collect());
+                for (i, nt) in m.nts.iter_mut().enumerate() {
+                    nt.name = na[i].clone();
+                }
+                for (i, t) in m.terms.iter_mut().enumerate() {
+                    t.name = nb[i].clone();
+                }
+                return;
+            }
+        }
+    }
     if rng.chance(0.05) {
         // very long names that share a long prefix and differ only at the very end (keys cut to a fixed
         // width, hashes of prefixes, column arithmetic in the emitted text)
